@@ -285,15 +285,24 @@ func Judge(nd *Node, tw *Twins) (*Finding, Stats) {
 				}
 			}
 		}
+		// a panicking serving function is reported after the comparison of the buckets (the
+		// cause is usually visible there), or on its own when there is no twin for this boundary
+		var panicked *Finding
 		if s.View.Panic != "" {
-			return &Finding{Kind: "c02-serving-panics", Detail: fmt.Sprintf("after %s of block %d a serving function of the store panicked: %s", stepName(s), s.Node, s.View.Panic), Step: i}, st
+			panicked = &Finding{Kind: "c02-serving-panics", Detail: fmt.Sprintf("after %s of block %d a serving function of the store panicked: %s", stepName(s), s.Node, s.View.Panic), Step: i}
 		}
 		if s.Tip < 0 {
+			if panicked != nil {
+				return panicked, st
+			}
 			continue
 		}
 		tip := nd.T.Nodes[s.Tip]
 		base, ok := twinBase(nd, tip)
 		if !ok {
+			if panicked != nil {
+				return panicked, st
+			}
 			continue
 		}
 		lin, err := tw.Get(base, tip)
@@ -327,6 +336,9 @@ func Judge(nd *Node, tw *Twins) (*Finding, Stats) {
 			}
 			f.Detail = fmt.Sprintf("after %s of block %d (height %d, kinds %v; store tip %d): %s", stepName(s), s.Node, x.Height, x.Kinds, s.Tip, f.Detail)
 			return f, st
+		}
+		if panicked != nil {
+			return panicked, st
 		}
 		f, n := CheckProofs(s.View, lin, R)
 		st.ProofsChecked += n
